@@ -116,11 +116,18 @@ def k_assoc(run, case):
         max_diff, offset, exact = float(case["max_diff"]), float(case["offset"]), bool(case.get("exact"))
     else:
         t1, t2, max_diff, offset, exact = make_stamps(rng, kind, nmax)
+    same_object = "t1" not in case and rng.random() < .05
+    if same_object:
+        t2 = t1  # a trajectory associated with itself (e.g. to look at a time lag)
     a1, a2 = payload(rng, t1), payload(rng, t2)
     m1 = "se3" if rng.random() < .5 else "xyzq"
     m2 = "se3" if rng.random() < .5 else "xyzq"
     f1, f2 = gen.rand_flavour(rng), gen.rand_flavour(rng)
+    if same_object:
+        a2, m2, f2 = a1, m1, f1
     tr1, tr2 = gen.make_evo(a1, m1, meta={"id": 1}, flavour=f1), gen.make_evo(a2, m2, meta={"id": 2}, flavour=f2)
+    if same_object:
+        tr2 = tr1
     gen.age(rng, tr1), gen.age(rng, tr2)
     if rng.random() < .3:
         tr1.poses_se3, tr1.positions_xyz, tr1.orientations_quat_wxyz
@@ -153,7 +160,7 @@ def k_assoc(run, case):
                      "outputs equally long", case, "outputs have %d and %d poses" %
                      (len(v1["t"]), len(v2["t"])), key="assoc:unequal-length"):
         return
-    run.check(o1 is not tr1 and o2 is not tr2 and o1.meta.get("id") == 1 and o2.meta.get("id") == 2,
+    run.check(o1 is not tr1 and o2 is not tr2 and o1.meta.get("id") == 1 and o2.meta.get("id") == (1 if same_object else 2),
               "outputs correspond to inputs in argument order", case,
               "first/second output do not derive from the first/second input",
               key="assoc:swapped-outputs")
